@@ -308,6 +308,84 @@ func main(n : int) -> int { print(S::TWO + 0); print(A::X + 0); print(A::Y + 0);
 """, dict(shape=True, expect_out="2\r\n43\r\n44\r\n", expect_res="I0")))
     return out
 
+def arith_family(rng):
+    """typed operators and implicit conversions on RUN-TIME operands (function parameters, so nothing is folded): every line of
+    output is computed here independently, with C's semantics (truncating division, sign of %, wrap-free ranges)"""
+    def tdiv(a, b):
+        q = abs(a) // abs(b)
+        return q if (a < 0) == (b < 0) else -q
+    def tmod(a, b):
+        return a - b * tdiv(a, b)
+    def q(x):   # multiples of 0.25: exact in binary, printed with %.2f
+        return "%.2f" % x
+    la, lb = rng.range(-9_000_000_000, 9_000_000_000), rng.choice([3, -7, 11, 1000003, -4294967297])
+    da, db = rng.range(-400, 400) / 4.0, rng.choice([0.5, -2.0, 4.0, 0.25])
+    ia, ib, sh = rng.range(-100000, 100000), rng.range(-100000, 100000), rng.range(0, 12)
+    sa = rng.range(0, 65535)
+    fa = rng.range(-64, 64) / 4.0
+    li = rng.range(-2_000_000_000, 2_000_000_000)
+    dl = rng.range(-4000, 4000) / 4.0
+    def b(x): return 1 if x else 0
+    exp = []
+    exp += [str(tdiv(la, lb)), str(tmod(la, lb)), str(-la), str(la * 3 - lb), str(la + lb)]
+    exp += [q(-da), q(da / db), q(da * db), q(da - db)]
+    exp += [str(b(la < lb)), str(b(la > lb)), str(b(la <= lb)), str(b(la >= lb)), str(b(la != lb)), str(b(la == la))]
+    exp += [str(b(da < db)), str(b(da > db)), str(b(da <= db)), str(b(da >= db)), str(b(da != db))]
+    exp += [str(b(fa != fa + 1)), str(b(fa < 0.0)), str(b(ia != ib))]
+    m32 = lambda x: ((x + 2**31) % 2**32) - 2**31
+    exp += [str(m32(ia & ib)), str(m32(ia | ib)), str(m32(ia ^ ib)), str(m32(sa << sh)), str(ia >> sh), str(~ia), str(b(not (ia == ib)))]
+    # conversions: int->long, int->double, long->double, int->float, long->int (in range), double->int (truncation), double->long, double->float
+    exp += [str(ia), q(float(sh)), q(float(tmod(li, 4096))), q(float(sh)), str(li), str(int(dl)), str(int(dl)), q(dl)]
+    src = """
+func div_l(a : long, b : long) -> long { a / b }
+func mod_l(a : long, b : long) -> long { a %% b }
+func neg_l(a : long) -> long { -a }
+func mix_l(a : long, b : long) -> long { a * 3L - b }
+func add_l(a : long, b : long) -> long { a + b }
+func neg_d(a : double) -> double { -a }
+func div_d(a : double, b : double) -> double { a / b }
+func mul_d(a : double, b : double) -> double { a * b }
+func sub_d(a : double, b : double) -> double { a - b }
+func lt_l(a : long, b : long) -> bool { a < b }
+func gt_l(a : long, b : long) -> bool { a > b }
+func lte_l(a : long, b : long) -> bool { a <= b }
+func gte_l(a : long, b : long) -> bool { a >= b }
+func neq_l(a : long, b : long) -> bool { a != b }
+func eq_l(a : long, b : long) -> bool { a == b }
+func lt_d(a : double, b : double) -> bool { a < b }
+func gt_d(a : double, b : double) -> bool { a > b }
+func lte_d(a : double, b : double) -> bool { a <= b }
+func gte_d(a : double, b : double) -> bool { a >= b }
+func neq_d(a : double, b : double) -> bool { a != b }
+func neq_f(a : float, b : float) -> bool { a != b }
+func lt_f(a : float, b : float) -> bool { a < b }
+func neq_i(a : int, b : int) -> bool { a != b }
+func band(a : int, b : int) -> int { a &&& b }
+func bor(a : int, b : int) -> int { a ||| b }
+func bxor(a : int, b : int) -> int { a ^^^ b }
+func bshl(a : int, b : int) -> int { a <<< b }
+func bshr(a : int, b : int) -> int { a >>> b }
+func bnot(a : int) -> int { ~~~a }
+func lnot(a : bool) -> bool { !a }
+func tol(x : long) -> long { x }
+func tod(x : double) -> double { x }
+func tof(x : float) -> float { x }
+func toi(x : int) -> int { x }
+func pb(x : bool) -> int { print(x ? 1 : 0) }
+func main(n : int) -> int {
+    let la = %dL; let lb = %dL; let da = %sd; let db = %sd; let ia = %d; let ib = %d; let sh = %d; let fa = %s; let li = %dL; let dl = %sd;
+    printl(div_l(la, lb)); printl(mod_l(la, lb)); printl(neg_l(la)); printl(mix_l(la, lb)); printl(add_l(la, lb));
+    printd(neg_d(da)); printd(div_d(da, db)); printd(mul_d(da, db)); printd(sub_d(da, db));
+    pb(lt_l(la, lb)); pb(gt_l(la, lb)); pb(lte_l(la, lb)); pb(gte_l(la, lb)); pb(neq_l(la, lb)); pb(eq_l(la, la));
+    pb(lt_d(da, db)); pb(gt_d(da, db)); pb(lte_d(da, db)); pb(gte_d(da, db)); pb(neq_d(da, db));
+    pb(neq_f(fa, fa + 1.0)); pb(lt_f(fa, 0.0)); pb(neq_i(ia, ib));
+    print(band(ia, ib)); print(bor(ia, ib)); print(bxor(ia, ib)); print(bshl(%d, sh)); print(bshr(ia, sh)); print(bnot(ia)); pb(lnot(ia == ib));
+    printl(tol(ia)); printd(tod(sh)); printd(tod(li %% 4096L)); printf(tof(sh)); print(toi(li)); print(toi(dl)); printl(tol(dl)); printf(tof(dl));
+    0
+}
+""" % (la, lb, repr(da), repr(db), ia, ib, sh, repr(fa), li, repr(dl), sa)
+    return [("arith_typed", src, dict(shape=True, expect_out="".join(e + "\r\n" for e in exp), expect_res="I0"))]
+
 def builtins_family(rng):
     """every non-FFI build-in called through its wrapper (the wrappers are emitted for every program, executed only when called)"""
     a, b = rng.range(2, 60), rng.range(2, 9)
@@ -324,7 +402,7 @@ func main(n : int) -> int {
 }
 """ % (a, b, a, a), dict(api=True))]
 
-FAMILIES = [tail_family, deeprec_family, alloc_family, exc_family, idx_family, api_family, shapes_family, builtins_family]
+FAMILIES = [tail_family, deeprec_family, alloc_family, exc_family, idx_family, api_family, shapes_family, builtins_family, arith_family]
 
 def generate(seed, rounds=1):
     rng = Rng(seed)
